@@ -311,6 +311,11 @@ let dispatch (f : Stdlib.String.t list) : Stdlib.String.t =
               | "plain" -> KPlain | "html" -> KHtml
               | "attach" -> KAttach (unhex a1, unhex a2)
               | "inline" -> KInline (unhex a1, unhex a2)
+              | "pre" ->
+                  let str x = Stdlib.String.concat "" (List.map (fun c -> Stdlib.String.make 1 (Char.chr (int_of_n c))) x) in
+                  (match Stdlib.String.split_on_char ',' (str (unhex a2)) with
+                   | [h; be] -> KPre (unhex a1, (if h = "!" then None else Some (cte_of h)), (if be = "!" then None else Some (cte_of be)))
+                   | _ -> failwith "pre spec")
               | _ -> KCustom (unhex a1, (if a2 = "!" then None else Some (cte_of (Stdlib.String.concat "" (List.map (fun x -> Stdlib.String.make 1 (Char.chr (int_of_n x))) (unhex a2))))))) in
             DSingle (k, st = "1", unhex c)
         | "M" ->
@@ -320,7 +325,7 @@ let dispatch (f : Stdlib.String.t list) : Stdlib.String.t =
             let rec kids i = if i = 0 then [] else let x = pd () in x :: kids (i - 1) in
             DMulti (k, unhex b, kids n)
         | t -> failwith ("mime token " ^ t) in
-      (match format_desc (pd ()) with Ok o -> "ok\t" ^ hex o | Err _ -> "err" | Panic -> "PANIC")
+      (match format_desc (pd ()) with Ok o -> "ok\t" ^ hex o | Err _ -> "err\tbody-refused" | Panic -> "PANIC")
   | ["mime.parse"; fuel; h] ->
       let rec nat_of_int i = if i <= 0 then O else S (nat_of_int (i - 1)) in
       let fields_s fs = String.concat "," (List.map (fun (n, v) -> hex n ^ ":" ^ hex v) fs) in
@@ -329,6 +334,17 @@ let dispatch (f : Stdlib.String.t list) : Stdlib.String.t =
         | TNode (fs, ps) -> "N(" ^ fields_s fs ^ ";" ^ String.concat " " (List.map tree_s ps) ^ ")" in
       (match parse_entity (nat_of_int (int_of_string fuel)) (unhex h) with Some t -> "some\t" ^ tree_s t | None -> "none")
   | ["mime.ct_boundary"; v] -> (match ct_boundary (unhex v) with Some b -> "some\t" ^ hex b | None -> "none")
+  | ["transport.model"; from; tos; msg] ->
+      let e = { e_from0 = (if from = "!" then None else Some (unhex from)); e_to0 = unhexlist tos } in
+      Printf.sprintf "%s\t%s\t%s" (hexlist (sendmail_args e)) (hex (json_envelope e)) (b01 (stub_keeps_octets (unhex msg)))
+  | ["spec.read_envelope"; j] ->
+      (match read_envelope (unhex j) with
+       | Some (f, tos) -> Printf.sprintf "some\t%s;%s" (match f with Some x -> hex x | None -> "!") (hexlist tos)
+       | None -> "none")
+  | ["spec.sendmail_reads"; args] ->
+      (match sendmail_reads (unhexlist args) with
+       | Some a -> Printf.sprintf "some\t%s\t%s;%s" (b01 a.sm_i) (match a.sm_f with Some x -> hex x | None -> "!") (hexlist a.sm_operands)
+       | None -> "none")
   | fn :: _ -> "UNKNOWN-FN " ^ fn
   | [] -> "EMPTY"
 
